@@ -321,6 +321,10 @@ func (h *Hist) scan(faults map[int]bool, failDesc map[string]bool) (string, erro
 	for _, p := range h.listedP {
 		h.podL.pods = append(h.podL.pods, p.materialise())
 	}
+	h.k8s.pods = nil
+	for _, p := range h.pods {
+		h.k8s.pods = append(h.k8s.pods, p.materialise())
+	}
 	// visiting order among nodes of equal age: first what the repository's own sorters produce on these lists (hooks);
 	// after the scan the prefix the code was actually seen to visit (its GET calls) is put in front, so that a different
 	// but equally valid tie-break of the code does not count as a disagreement. The model validates every hint
